@@ -28,6 +28,7 @@ def main():
     ap.add_argument('--breaks', default=None)
     ap.add_argument('--needs', default='')
     ap.add_argument('--skip-confirm', action='store_true')
+    ap.add_argument('--history', default='detected by the checks as they were when the change arrived')
     a = ap.parse_args()
     diff = os.path.join(a.dir, 'variant%s.diff' % a.variant)
     demo = os.path.join(a.dir, 'demo%s.py' % a.variant)
@@ -99,7 +100,7 @@ def main():
                     demo_exit_changed=res.get('demo_changed_exit'),
                     what_was_run=['scratch worktree: git apply patch.diff; pytest (579 passed / 36 pre-existing failures); python demo.py fails; without the patch demo.py passes',
                                   'git -C /repo apply patch.diff; ./check <id> --tier quick for every registered check; git -C /repo checkout -- .'],
-                    detected_by=hit, inconclusive=inc, first_reports={p: fired[p]['first'][:1] for p in hit}, agent_notes=notes)
+                    detected_by=hit, inconclusive=inc, history=a.history, first_reports={p: fired[p]['first'][:1] for p in hit}, agent_notes=notes)
         json.dump(meta, open(os.path.join(d, 'meta.json'), 'w'), indent=1)
         print('kept as', d)
 
